@@ -22,6 +22,12 @@
 //         - KeyParser tables with random printable values: parameter_info -> parse -> parameter_info is the identity;
 //         - string lists are split and trimmed like scalar strings; input ending in a continuation backslash terminates;
 //         - the tables of an Interfile header have the number of elements that the header declares.
+//   (c) Interfile image / multiple-data-set headers with their size-giving keys in ANY order (`hdr image|multi x<text>`): generated
+//       single / dynamic / parametric headers in the writer's order and re-ordered (c17_hdrcheck.h), answer = every modelled member of the
+//       header object, against the Lean model of the count-key call-backs; ORACLE: accepted => every table has the announced length;
+//       re-ordered and accepted => same members as the writer's order; fault-free header in the writer's order => accepted.
+//   (d) copies of ParsingObjects (`po new|copy|assign|parse|info|destroy`): histories on a concrete ParsingObject against the Lean heap
+//       model; ORACLE: a copy prints the values it was copied with, operations on one object never change what another prints.
 // Usage: c17_keyparser <seed> <quick|thorough> <opsfile> <implfile>
 #include "common.h"
 #include "stir_fixtures.h"
